@@ -15,18 +15,19 @@ THEOREMS = [
     "Mpc.C05_stream_program",
     "Mpc.C05_stream_decode",
     "Mpc.C05_stream_concrete",
-    "Mpc.C05_gc_safe_partial",
+    "Mpc.C05_gc_safe",
     "Mpc.C05_gc_safe_transitive",
-    "Mpc.C05_gc_chain_pass",
-    "Mpc.C05_gc_unsafe_alias_chain",
-    "Mpc.C05_gc_chain_ids_collide",
-    "Mpc.C05_gc_unsafe_concat",
-    "Mpc.C05_gc_concat_ids_collide",
-    "Mpc.C05_gc_fixed_on_witnesses",
+    "Mpc.C05_gc_witnesses_now_safe",
+    "Mpc.C05_gcOld_safe_partial",
+    "Mpc.C05_gcOld_chain_pass",
+    "Mpc.C05_gcOld_unsafe_alias_chain",
+    "Mpc.C05_gcOld_chain_ids_collide",
+    "Mpc.C05_gcOld_unsafe_concat",
+    "Mpc.C05_gcOld_concat_ids_collide",
 ]
 
 # opcode sets the models assume (Model/Gc.lean: Op.gcAlias, Op.rewires)
-EXPECT_GC_ALIAS = ["Amov", "Lshift", "Mov", "Rshift", "Slice", "Smov", "Srshift"]
+EXPECT_GC_ALIAS = ["Amov", "Concat", "Lshift", "Mov", "Rshift", "Slice", "Smov", "Srshift"]
 EXPECT_STREAM_CASES = ["Amov", "Circ", "Concat", "GC", "Lshift", "Mov", "Ret", "Rshift", "Slice", "Smov", "Srshift"]
 EXPECT_FLAGS = ["0b10000000", "0b01000000", "0b00100000", "0b00010000"]
 
@@ -60,8 +61,12 @@ def facts(ctx):
     m = re.search(r"case\s+([A-Za-z, ]+):\s*\n\s*// Output is an alias", gc or "")
     got = sorted(x.strip() for x in m.group(1).split(",")) if m else None
     ctx.fact("alias operands tracked by Program.GC", got, EXPECT_GC_ALIAS)
-    ctx.fact("Program.GC consults direct aliases only (no closure over the alias table)",
-             bool(gc) and len(re.findall(r"aliases\[", vlib.strip_go_comments(gc))) == 3, True)
+    body = vlib.strip_go_comments(gc or "")
+    ctx.fact("Program.GC: liveness of an input is closed over direct and indirect aliases (aliasLive recursion)",
+             [bool(re.search(r"aliasLive = func\(id ValueID\) bool \{\s*for _, alias := range aliases\[id\] \{\s*"
+                             r"if set\.Bit\(int\(alias\.ID\)\) == 1 \|\| aliasLive\(alias\.ID\) \{\s*return true", body)),
+              bool(re.search(r"if set\.Bit\(int\(in\.ID\)\) == 0 \{\s*if !aliasLive\(in\.ID\) \{", body))],
+             [True, True])
     st = vlib.go_func_body("compiler/ssa/streamer.go", r"\(prog \*Program\) Stream\(")
     ctx.fact("operands special-cased (not garbled via circuitGenerators) by Program.Stream",
              case_labels(st, r"switch instr\.Op \{"), EXPECT_STREAM_CASES)
@@ -124,7 +129,7 @@ def run(ctx):
         want_ops = ["amov", "concat", "lshift", "rshift", "srshift", "slice", "mov", "smov", "phi", "index"]
         missing = [o for o in want_ops if c.get("ssaop_" + o, 0) == 0]
         ctx.oblige("every rewiring operand (and phi, index) occurred in the streamed programs", not missing, str(missing))
-        ctx.oblige("the two hand-found witnesses still reproduce or are fixed (corpus programs ran)",
+        ctx.oblige("the two hand-found witnesses of the pre-0c2f851 GC defects ran (corpus programs)",
                    c.get("class_corpus", 0) >= 3, str(c))
     ctx.coverage["rule"] = (
         "oracle: seeded grammar-based MPCL programs in 4 classes (alias-heavy with few widths, mixed, unsized main "
@@ -146,11 +151,12 @@ def run(ctx):
         "Oracle: real compiler.Stream <-> circuit.StreamEvaluator sessions vs real Compile + Circuit.Compute on generated "
         "programs: values and output types of both parties. A mismatch is attributed by re-running ssa.Program.Stream with "
         "exactly the gc instructions dropped that free a range which is still pointed at (per-bit replay of the streamer's "
-        "rewiring); only mismatches so explained, with cause alias-chain or concat, are the known findings. Theorems: gate "
+        "rewiring); (the two GC defects found this way were fixed in /repo by 0c2f851; their witnesses stay in the corpus). Theorems: gate "
         "record codec round trip (both id encodings, all flags), streamed gate/circuit/program keeps the C01 relation on "
-        "the global wire store for any tweak-counter start, Program.GC safe without alias chains/concat, negation witnesses "
-        "for both, allocator-model id collision, and safety of GC with a transitively closed alias table (the proposed "
-        "fix). Tie: Lean gcPass + allocator/rewiring model vs the real GC'd step list, the real return wire ids and "
+        "the global wire store for any tweak-counter start, C05_gc_safe: Program.GC (alias table closed transitively over "
+        "the eight rewiring operands) never frees a range a later-read value points into, for every well-formed step list; "
+        "for the pre-fix pass gcPassOld the partial theorem and the two negation witnesses with allocator-model id "
+        "collisions are kept. Tie: Lean gcPass + allocator/rewiring model vs the real GC'd step list, the real return wire ids and "
         "per-circuit max ids parsed from the wire; Lean streamGarble + record encoder vs real Streaming.Garble bytes "
         "(several circuits per Streaming object, ids on both sides of 65535). Facts: alias operand set of GC, special-cased "
         "operands of Stream, op-byte flags, tweak counter placement.")
